@@ -42,14 +42,14 @@ Definition catch_cerr {A} (m : M A) (dflt : A) (onerr : log) (onok : A -> log) :
 
 Definition run_sop (o : sop) (granted : N) : M (N * log) :=
   match o with
-  | SRequest n => tick ;;; s <- get ;; let g := N.min n (avail s) in ret (g, [Z.of_N g])
-  | SSlice => s <- get ;; ret (granted, lbytes (firstN granted (visible s)))
+  | SRequest n => tick ;;; a <- get_avail ;; let g := N.min n a in ret (g, [Z.of_N g])
+  | SSlice => v <- get_visible ;; ret (granted, lbytes (firstN granted v))
   | SBytes a b =>
       let b' := N.min b granted in let a' := N.min a b' in
-      s <- get ;; ret (granted, lbytes (firstN (b' - a') (skipN a' (visible s))))
+      v <- get_visible ;; ret (granted, lbytes (firstN (b' - a') (skipN a' v)))
   | SAdvance k => let k' := N.min k granted in advance k' ;;; ret (granted - k', [Z.of_N k'])
   | SSkip n =>
-      tick ;;; s <- get ;; let r := N.min (avail s) n in advance r ;;; ret (0%N, [Z.of_N r])
+      tick ;;; a <- get_avail ;; let r := N.min a n in advance r ;;; ret (0%N, [Z.of_N r])
   | STakeU8 => r <- catch_cerr take_u8 0%N [zm1] (fun b => [Z.of_N b]) ;; ret (0%N, snd r)
   | STakeOptU8 =>
       o <- take_opt_u8 ;; ret (0%N, match o with Some b => [Z.of_N b] | None => [zm2] end)
